@@ -127,7 +127,25 @@ fi
 CRASHES=$(find "$RUN"/artifacts-[0-9]* -type f -name 'crash-*' | wc -l)
 TIMEOUTS=$(find "$RUN"/artifacts-[0-9]* -type f -name 'timeout-*' | wc -l)
 OOMS=$(find "$RUN"/artifacts-[0-9]* -type f \( -name 'oom-*' -o -name 'leak-*' \) | wc -l)
-echo "FUZZ property=$ID target=$T runs=$RUNS execs=$EXECS cov=${COV:-0} corpus=${CORP:-0} crashes=$CRASHES ft=${FTS:-0} seed_corpus=$NSEED workers=$W seed=$SEED timeouts=$TIMEOUTS ooms=$OOMS"
+FUZZ_LINE="FUZZ property=$ID target=$T runs=$RUNS execs=$EXECS cov=${COV:-0} corpus=${CORP:-0} crashes=$CRASHES ft=${FTS:-0} seed_corpus=$NSEED workers=$W seed=$SEED timeouts=$TIMEOUTS ooms=$OOMS"
+echo "$FUZZ_LINE"
+# record the campaign in the evidence file the property's check wrote (extra keys under coverage)
+if [ -f "$ROOT/evidence/$ID.json" ]; then
+  python3 - "$ROOT/evidence/$ID.json" "$FUZZ_LINE" "$T" "$EXECS" "${COV:-0}" "${CORP:-0}" "$CRASHES" "$NSEED" "$W" "$SEED" <<'PY' || true
+import json, sys
+path, line, target, execs, cov, corp, crashes, nseed, workers, seed = sys.argv[1:11]
+e = json.load(open(path))
+c = e.setdefault("coverage", {})
+c["coverage_guided_campaign"] = {
+    "engine": "cargo-fuzz / libFuzzer, ASan, in-process, oracle inside the target (harness/src/fuzz.rs)",
+    "target": target, "executions": int(execs), "edge_coverage": int(cov), "corpus_files": int(corp),
+    "crash_artifacts": int(crashes), "seed_corpus_files": int(nseed), "workers": int(workers), "seed": int(seed),
+}
+notes = c.setdefault("notes", [])
+notes[:] = [n for n in notes if not str(n).startswith("FUZZ ")] + [line]
+json.dump(e, open(path, "w"), indent=1)
+PY
+fi
 
 # ---- verdict ----
 if [ "$CRASHES" -gt 0 ]; then
